@@ -1041,12 +1041,16 @@ pub fn frontends_check(w: &LspWorld, u: &UriSpec, text: &str) -> Result<Option<(
             let tdir = root.join("frontends-tests");
             let _ = std::fs::remove_dir_all(&tdir);
             std::fs::create_dir_all(&tdir).map_err(|e| e.to_string())?;
-            for r in &f.docs {
-              let n = on_file.iter().filter(|x| x["ruleId"].as_str() == Some(r.id.as_str())).count();
-              let key = if n == 0 { "valid" } else { "invalid" };
-              let other = if n == 0 { "invalid" } else { "valid" };
-              let y = format!("id: {}\n{key}:\n- {}\n{other}: []\n", r.id, serde_json::to_string(text).unwrap());
-              std::fs::write(tdir.join(format!("{}-test.yml", r.id)), y).map_err(|e| e.to_string())?;
+            // more test documents than `sg test` has worker threads (it splits them in chunks)
+            let copies = (20 / f.docs.len().max(1)).max(1);
+            for c in 0..copies {
+              for r in &f.docs {
+                let n = on_file.iter().filter(|x| x["ruleId"].as_str() == Some(r.id.as_str())).count();
+                let key = if n == 0 { "valid" } else { "invalid" };
+                let other = if n == 0 { "invalid" } else { "valid" };
+                let y = format!("id: {}\n{key}:\n- {}\n{other}: []\n", r.id, serde_json::to_string(text).unwrap());
+                std::fs::write(tdir.join(format!("{}-{c}-test.yml", r.id)), y).map_err(|e| e.to_string())?;
+              }
             }
             FE_VERDICTS.fetch_add(f.docs.len() as u64, Ordering::Relaxed);
             let argv: Vec<String> = ["sg", "test", "-t", "frontends-tests", "--skip-snapshot-tests"].iter().map(|s| s.to_string()).collect();
@@ -1055,6 +1059,19 @@ pub fn frontends_check(w: &LspWorld, u: &UriSpec, text: &str) -> Result<Option<(
             if let Err(e) = &out.result {
               if e.starts_with("test failed") {
                 return Ok(Some(("TEST-VERDICT-DIFFERS".into(), format!("{}: `sg test` does not confirm what `sg scan -r {rf}` reports for the same text ({e})", u.rel))));
+              }
+            } else {
+              // every test document must have received a verdict
+              let so = out.stdout_str();
+              let passed: Option<usize> = so.lines().rev().find_map(|l| {
+                let i = l.find(" passed")?;
+                l[..i].rsplit(|c: char| !c.is_ascii_digit()).next()?.parse().ok()
+              });
+              let want = copies * f.docs.len();
+              if let Some(p) = passed {
+                if p != want {
+                  return Ok(Some(("TEST-VERDICT-MISSING".into(), format!("{}: `sg test` reports {p} passed test documents, {want} were given", u.rel))));
+                }
               }
             }
           }
@@ -1088,6 +1105,10 @@ fn first_diff(a: &[Diag], b: &[Diag]) -> String {
 const LSP_LANGS: &[(&str, &str)] = &[("TypeScript", "ts"), ("JavaScript", "js"), ("Python", "py"), ("Rust", "rs"), ("Go", "go"), ("Css", "css")];
 
 fn gen_text(r: &mut Rng, lang: &str, allow_large: bool) -> String {
+  if r.chance(0.03) {
+    // nothing but blanks: not an empty file, and the root node still exists
+    return r.pick(&["\n", "  \n", "\n\n  \n", " "]).to_string();
+  }
   if allow_large && r.chance(0.08) {
     // hundreds of findings: large frames create back-pressure
     let line = match lang {
